@@ -48,6 +48,7 @@ NOT_ASSERTED = ['direct mutation of a cell\'s own bits/refs containers from outs
 
 MAXPOOL = 6
 POOLS = ['builder', 'boc', 'plain', 'dict', 'msg']
+RULE += " Sixth session: constructor schedules - all sequences of <= 3 (thorough 4) constructor calls over twin cells (equal data bits: ordinary vs library / pruned branch) through six routes, every produced cell compared with the reference when made and after every later call; observer order_into (the dictionary order() returned is handed on to another cell's order()); the dictionary pool's root edge has a non-empty label."
 
 
 def BOUNDS(tier):
@@ -852,8 +853,18 @@ def case_schedules(rec, kind, hist, length, lean):
         return
     evs = sched_events(first[1], lean)
     base = {}
+    def again():
+        res = _sched_pool(kind, hist)
+        if res is None:
+            # the same history, replayed on fresh objects, went through the first time and does not now: something outlived the replay
+            rec.violation('schedule:replay-diverged', f'pool {kind}, history {hist}: replaying the history on fresh objects succeeded once and fails / diverges from the '
+                          f'reference model the next time (state carried between replays)', 'case_schedules', args)
+        return res
     for ev in evs:
-        pool, mpool, bocs = _sched_pool(kind, hist)
+        res = again()
+        if res is None:
+            return
+        pool, mpool, bocs = res
         try:
             base[ev] = _obs(pool, bocs, ev)
         except Exception as e:
@@ -865,7 +876,10 @@ def case_schedules(rec, kind, hist, length, lean):
         for seq in itertools.product(evs, repeat=L):
             if len(set(seq)) == 1 and L > 2:
                 continue
-            pool, mpool, bocs = _sched_pool(kind, hist)
+            res = again()
+            if res is None:
+                return
+            pool, mpool, bocs = res
             rec.trans()
             n += 1
             for k, ev in enumerate(seq):
